@@ -53,13 +53,13 @@ theorem splitN_cons (k : Nat) (x : UInt8) (xs : Bytes) :
       if x == 10 then [] :: TlogNote.splitN (k + 1) xs else prependHead [x] (TlogNote.splitN (k + 2) xs) := by
   by_cases hx : x = 10
   · subst hx
-    simp [TlogNote.splitN, List.span_eq_takeWhile_dropWhile]
+    simp [TlogNote.splitN, span_eq]
   · have h1 : (x != 10) = true := by simpa using hx
     have h2 : (x == 10) = false := by simpa using hx
     rw [if_neg (by simp [h2])]
     conv => lhs; unfold TlogNote.splitN
     conv => rhs; unfold TlogNote.splitN
-    simp only [List.span_eq_takeWhile_dropWhile, List.takeWhile_cons, List.dropWhile_cons, h1, if_true]
+    simp only [span_eq, List.takeWhile_cons, List.dropWhile_cons, h1, if_true]
     cases hd : xs.dropWhile (· != 10) with
     | nil => simp [prependHead]
     | cons a rest => simp [prependHead]
@@ -67,7 +67,7 @@ theorem splitN_cons (k : Nat) (x : UInt8) (xs : Bytes) :
 theorem splitN_nil (k : Nat) : TlogNote.splitN (k + 1) [] = [[]] := by
   cases k with
   | zero => rfl
-  | succ k => simp [TlogNote.splitN, List.span_eq_takeWhile_dropWhile]
+  | succ k => simp [TlogNote.splitN, span_eq]
 
 theorem splitNAux_eq : ∀ (s : Bytes) (f k : Nat) (cur : Bytes), s.length < f →
     splitNAux [10] f (k + 1) s cur = prependHead cur.reverse (TlogNote.splitN (k + 1) s) := by
@@ -117,7 +117,7 @@ theorem length_prependHead (p : Bytes) (l : List Bytes) (h : l ≠ []) : (prepen
 
 theorem countNL_cons (x : UInt8) (xs : Bytes) :
     TlogNote.countNL (x :: xs) = (if x == 10 then 1 else 0) + TlogNote.countNL xs := by
-  by_cases h : (x == 10) = true <;> simp [TlogNote.countNL, List.filter_cons, h] <;> omega
+  by_cases h : (x == 10) = true <;> simp [TlogNote.countNL, h] <;> omega
 
 /-- at least `k` newlines give `k + 1` pieces -/
 theorem length_splitN : ∀ (s : Bytes) (k : Nat), k ≤ TlogNote.countNL s → (TlogNote.splitN (k + 1) s).length = k + 1 := by
@@ -153,19 +153,16 @@ theorem splitN4_shape (s : Bytes) (h : 3 ≤ TlogNote.countNL s) :
 theorem ParseTree_eq (text : Bytes) :
     Generated.TlogNote.ParseTree b64decI id text = .ok (ptOut (TlogNote.parseTree text)) := by
   unfold Generated.TlogNote.ParseTree TlogNote.parseTree
-  simp only [hasPrefix, treePrefix_eq, count_nl, len_eq]
+  simp only [hasPrefix, treePrefix_eq, count_nl]
+  have e1 : decide (((TlogNote.countNL text : Nat) : Int) < 3) = decide (TlogNote.countNL text < 3) :=
+    decide_eq_decide.mpr (by omega)
+  have e2 : decide (len text > 1000000) = decide (text.length > 1000000) :=
+    decide_eq_decide.mpr (by simp only [len_eq]; omega)
+  simp only [e1, e2]
   by_cases hc : (!isPrefixOfB TlogNote.treePrefix text || decide (TlogNote.countNL text < 3) ||
       decide (text.length > 1000000)) = true
-  · have hc' : (!isPrefixOfB TlogNote.treePrefix text || decide (((TlogNote.countNL text : Nat) : Int) < 3) ||
-        decide (((text.length : Nat) : Int) > 1000000)) = true := by
-      simp only [Bool.or_eq_true, decide_eq_true_eq] at hc ⊢
-      omega
-    rw [if_pos hc', if_pos hc]; rfl
-  · have hc' : ¬ (!isPrefixOfB TlogNote.treePrefix text || decide (((TlogNote.countNL text : Nat) : Int) < 3) ||
-        decide (((text.length : Nat) : Int) > 1000000)) = true := by
-      simp only [Bool.or_eq_true, decide_eq_true_eq] at hc ⊢
-      omega
-    rw [if_neg hc', if_neg hc]
+  · simp only [hc, ↓reduceIte]; rfl
+  · simp only [hc, ↓reduceIte]
     have h3 : 3 ≤ TlogNote.countNL text := by
       simp only [Bool.or_eq_true, decide_eq_true_eq, not_or] at hc; omega
     obtain ⟨a, b, c, d, hs⟩ := splitN4_shape text h3
@@ -188,9 +185,8 @@ theorem ParseTree_eq (text : Bytes) :
       · simp only [hn, decide_false, Bool.false_eq_true, if_false, bind_ok, pure_eq_ok, Bool.false_or]
         by_cases hb : b = Decimal.formatInt n
         · have hb' : (b != Decimal.formatInt n) = false := by simpa using hb
-          simp only [hb, decide_true, Bool.not_true, Bool.false_eq_true, if_false]
-          rw [← hb, hb']
-          simp only [Bool.false_eq_true, if_false]
+          have hb2 : decide (b = Decimal.formatInt n) = true := by simpa using hb
+          simp only [hb2, hb', Bool.not_true, Bool.false_eq_true, if_false]
           unfold b64decI
           cases hd : Base64.decodeStd c with
           | none => simp only [Option.isNone_some, Bool.not_false, Bool.true_or, if_true]; rfl
@@ -206,7 +202,8 @@ theorem ParseTree_eq (text : Bytes) :
               simp only [hl2, decide_false, Bool.not_false, if_true, hl']
               rfl
         · have hb' : (b != Decimal.formatInt n) = true := by simpa using hb
-          simp only [hb, decide_false, Bool.not_false, if_true, hb']
+          have hb2 : decide (b = Decimal.formatInt n) = false := by simpa using hb
+          simp only [hb2, Bool.not_false, if_true, hb']
           rfl
 
 end ModVerif.TieFnTlogNote
